@@ -40,6 +40,12 @@ func genRegress() []caseSpec {
 	// F-C06-c: tapscript, empty signature, public key of unknown type
 	add("F-C06-c:checksig", wTapscript, std, cat(pushBytes(keys[1].comp), []byte{0xac, 0x91}), empty1)
 	add("F-C06-c:checksigadd", wTapscript, std, cat([]byte{0x00}, pushBytes(keys[1].comp), []byte{0xba, 0x91}), empty1)
+	// seed C06-g: the same with a key SHORTER than 32 bytes (also an unknown type: neither 0 nor 32 bytes)
+	short31 := append([]byte{}, keys[1].comp[1:32]...)
+	add("short-key:checksigadd-31", wTapscript, std, cat([]byte{0x00}, pushBytes(short31), []byte{0xba, 0x91}), empty1)
+	add("short-key:checksigadd-1", wTapscript, std, cat([]byte{0x00}, pushBytes([]byte{0x42}), []byte{0xba, 0x91}), empty1)
+	add("short-key:checksig-31", wTapscript, std, cat(pushBytes(short31), []byte{0xac, 0x91}), empty1)
+	add("short-key:checksigadd-31-consensus", wTapscript, consensusAll, cat([]byte{0x00}, pushBytes(short31), []byte{0xba, 0x91}), empty1)
 	add("F-C06-c:checksig-consensus", wTapscript, consensusAll, cat(pushBytes(keys[1].comp), []byte{0xac, 0x91}), empty1)
 
 	// F-C06-b (fixed): empty signature, OP_0 in a legacy script: CONST_SCRIPTCODE, and the script code of the
